@@ -73,7 +73,7 @@ Proof.
     destruct sp; try discriminate. destruct rd; injection Hs as <-; constructor; finish.
   - (* SMerge *)
     destruct sp; try discriminate. injection Hs as <-.
-    destruct u as [x|]; [|destruct sl as [l|]]; constructor; finish.
+    destruct c as [x| |]; [|destruct sl as [l|]|]; constructor; finish.
     all: try (intros Hin; apply in_app_or in Hin as [Hin|[Hin|[]]]; [auto|discriminate]).
   - (* SNotify *)
     destruct sp; try discriminate. injection Hs as <-.
@@ -153,7 +153,7 @@ Proof.
     subst sd.
     assert (Hn' : ~ (In (RecvRet None) dl \/ exists f, rp = RReturning f None)).
     { intros H. destruct (Hn H) as [H1 _]. discriminate. }
-    destruct u as [x|]; [|destruct sl as [l|]];
+    destruct c as [x| |]; [|destruct sl as [l|]|];
       (constructor; unfold delivered_values, in_flight, slot_list; cbn;
        [ | intros H; exfalso; apply Hn'; exact H | ]).
     + destruct sl as [l|]; cbn in *; rewrite <- He, <- !app_assoc; reflexivity.
@@ -162,6 +162,10 @@ Proof.
     + repeat split; auto.
     + rewrite ?app_nil_r in *. exact He.
     + repeat split; auto.
+    + (* clearing closure: the slot's content is the tail of [merged] and is retracted *)
+      rewrite app_nil_r. rewrite <- He. rewrite app_assoc. unfold drop_last.
+      rewrite app_length, Nat.add_sub. rewrite firstn_app, Nat.sub_diag, firstn_all. cbn [firstn]. rewrite app_nil_r. reflexivity.
+    + repeat split; auto; intros; discriminate.
   - (* SNotify *)
     destruct sp; try discriminate. injection Hs as <-.
     destruct w as [|hw|]; constructor; cbn; auto.
